@@ -2844,6 +2844,14 @@ class AggregateBase(UnitsManaged, Saveable, OpenSystem):
                             relaxation_hamiltonian=H,
                             start=start)
 
+                # these populations are defined in the EXCITON BASIS, so
+                # the density matrix has to be created there
+                with eigenbasis_of(Ham):
+                    rho = DensityMatrix(data=rho0)
+
+                self.rho0 = rho.data
+                return rho
+
             else:
                 raise Exception("Unknown relaxation_theory_limit")
 
